@@ -253,6 +253,8 @@ struct Program {
     tasks: Vec<Vec<Op>>,
     /// pre-emption bound of the search for this program
     bound: usize,
+    /// disk cache with two levels of hashed sub-directories instead of the flat layout
+    subdirs: bool,
 }
 
 fn swap_keys(op: Op) -> Op {
@@ -292,7 +294,7 @@ fn programs(sys: Sys, alphabet: &[Op], setups: &[Vec<Op>], shape: &[usize], boun
                 }
             }
             if keep {
-                out.push(Program { sys, setup: setup.clone(), tasks, bound });
+                out.push(Program { sys, setup: setup.clone(), tasks, bound, subdirs: false });
             }
             // next tuple
             let mut d = slots;
@@ -339,7 +341,7 @@ fn dfs_program(p: &Program, known: &Known, known_keys: &[String], st: &mut DfsSt
             stop.store(true, Ordering::Relaxed);
             return;
         }
-        let case = Case { sys: p.sys, cfg: Cfg::roomy(), setup: p.setup.clone(), tasks: p.tasks.clone(), schedule: prefix.clone() };
+        let case = Case { sys: p.sys, cfg: Cfg { subdirs: p.subdirs, ..Cfg::roomy() }, setup: p.setup.clone(), tasks: p.tasks.clone(), schedule: prefix.clone() };
         let run = match run_case(&case) {
             Ok(r) => r,
             Err(e) => {
@@ -755,6 +757,20 @@ fn main() {
             tier.pick(2, BOUND)
         );
         run_dfs_section(&mut ck, "dfs-disk", scope, progs, 16, &known_keys);
+    }
+    {
+        // the hashed layout: entries live in sub-directories that clear() removes when they are empty
+        let setups: Vec<Vec<Op>> = vec![vec![], vec![Op::Put { k: 0 }]];
+        let alphabet = vec![Op::Get { k: 0 }, Op::Put { k: 0 }, Op::Remove { k: 0 }, Op::Clear];
+        let mut progs = programs(Sys::Disk, &alphabet, &setups, &[2, 2], 2);
+        for p in &mut progs {
+            p.subdirs = true;
+        }
+        let scope = format!(
+            "DiskCache with two levels of hashed sub-directories, 2 tasks x 2 ops over {{get, put, remove}} on key0 + clear, one program per symmetry class, setups {setups:?}, every schedule with <= 2 pre-emptions at the sched_point sites: {} programs",
+            progs.len()
+        );
+        run_dfs_section(&mut ck, "dfs-disk-hashed-layout", scope, progs, 16, &known_keys);
     }
     {
         let setups: Vec<Vec<Op>> = vec![vec![], vec![Op::Put { k: 0 }]];
